@@ -160,6 +160,9 @@ func (obj *Hmm) ImportConfig(config ConfigDistribution, t ScalarType) error {
       distributions[i] = tmp
     }
   }
+  if len(distributions) != obj.NEDists() {
+    return fmt.Errorf("invalid config file: number of distributions does not match the number of emission states")
+  }
   obj.Edist = distributions
 
   return nil
